@@ -286,11 +286,14 @@ Definition tablerow_loop (body : est -> sink -> out) (x : str) (len cols : Z) :=
         | o => o
         end
     end.
-Definition render_for_loop (body : est -> sink -> out) (x : str) (len : Z) (base : obj) :=
+(* the arguments are evaluated again for every item, in the caller's runtime as it is then (a partial can
+   move the shared counters an argument reads) *)
+Definition render_for_loop (body : est -> sink -> out) (x : str) (len : Z) (basef : est -> res obj) :=
   fix loop (vs : list value) (i : Z) (s : est) (k : sink) {struct vs} : out :=
     match vs with
     | [] => (ODone, s, k)
     | v :: vs' =>
+        of_res (basef s) s k (fun base =>
         let root := upsert x v (upsert k_forloop (forloop_obj i len None) base) in
         match body (push_sandbox root s) k with
         | (ODone, s', k') =>
@@ -298,7 +301,7 @@ Definition render_for_loop (body : est -> sink -> out) (x : str) (len : Z) (base
             let s1 := pop_sandbox s' in
             if brk then (ODone, s1, k') else loop vs' (i + 1)%Z s1 k'
         | (o, s', k') => (o, pop_sandbox s', k')
-        end
+        end)
     end.
 Definition k_dot_liquid : str := [46;108;105;113;117;105;100]%N.
 Definition site_tablerow_cols_zero : N := 302%N.
@@ -412,11 +415,11 @@ Fixpoint rnode (n : node) (s : est) (k : sink) {struct n} : out :=
                   match arr with
                   | [] => (ODone, s, k)
                   | _ =>
-                      (* arguments and the partial are looked up in every iteration; both are
-                         independent of the iteration, so the first failure is what is observed *)
-                      of_res (eval_args args s []) s k (fun a =>
+                      (* arguments, then the partial, are looked up in every iteration: the lookup does not
+                         depend on the iteration, the arguments are evaluated again by the loop *)
+                      of_res (eval_args args s []) s k (fun _ =>
                       of_res lookup_p s k (fun body =>
-                        render_for_loop (rec body) x (Z.of_nat (length arr)) a arr 0%Z s k))
+                        render_for_loop (rec body) x (Z.of_nat (length arr)) (fun s' => eval_args args s' []) arr 0%Z s k))
                   end)
             | None =>
                 of_res (eval_args args s []) s k (fun a =>
